@@ -325,9 +325,9 @@ def check_line_case(acc, case, trivial=False):
 
 
 def shard_single(args):
-    position, max_len = args
+    position, max_len, first = args
     acc = Acc()
-    for text in strings(max_len):
+    for text in ([""] if not first else (first + rest for rest in strings(max_len - 1))):
         if not expressible(position, text):
             acc.count("skipped-inexpressible")
             continue
@@ -385,6 +385,80 @@ def shard_config(args):
                                 "record_tags": record_tags, "fields": fields,
                                 "resolution": resolution, "created": created}
                         check_line_case(acc, case)
+    return acc
+
+
+# -- histories: several records through one formatter instance ------------------------------
+
+
+def run_history(case):
+    """case: dict(kind line|json, config, records [payload dicts]); every record must decode
+    exactly as it does through a fresh formatter, i.e. to its own content"""
+    from cobald.monitor.format_json import JsonFormatter
+    from cobald.monitor.format_line import LineProtocolFormatter
+
+    config = case["config"]
+    if case["kind"] == "line":
+        if isinstance(config, list):
+            config = set(config)
+        formatter = LineProtocolFormatter(tags=config, resolution=None)
+    else:
+        formatter = JsonFormatter(fmt=config, datefmt="")
+    original = json.dumps(case["config"], sort_keys=True)
+    for index, payload in enumerate(case["records"]):
+        record = make_record("m", dict(payload), 1600000000.0)
+        try:
+            output = formatter.format(record)
+        except Exception as err:  # noqa: B902
+            return "record %d: formatting raised %s: %s" % (index, type(err).__name__, err)
+        if case["kind"] == "line":
+            defaults = case["config"] if isinstance(case["config"], dict) else {}
+            names = set(case["config"] or ())
+            want_tags = {k: tag_text(v) for k, v in {
+                **defaults, **{k: v for k, v in payload.items() if k in names}}.items()}
+            want_fields = {k: value_kind(v) for k, v in payload.items() if k not in names}
+            try:
+                _m, tags, fields, _t = parse_line(output)
+            except ParseError as err:
+                return "record %d: output %r is not line protocol: %s" % (index, output, err)
+            if tags != want_tags or fields != want_fields:
+                return "record %d of %r: output %r decodes to tags %r fields %r, expected %r %r" % (
+                    index, case["records"], output, tags, fields, want_tags, want_fields)
+        else:
+            want = dict(case["config"] or {})
+            want["message"] = "m"
+            want.update(payload)
+            if json.loads(output) != want:
+                return "record %d of %r: output %r, expected %r" % (
+                    index, case["records"], output, want)
+        if json.dumps(case["config"], sort_keys=True) != original:
+            return "record %d: the formatter modified its configuration to %r" % (
+                index, case["config"])
+    return None
+
+
+HISTORY_PAYLOADS = [{"f": 1}, {"t": "r", "f": 1}, {"t": "s", "u": "w", "f": 2}, {"u": "w", "f": 1},
+                    {"f": 1, "g": "x"}]
+
+
+def shard_history(args):
+    (kind,) = args
+    acc = Acc()
+    configs = ([None, ["t"], ["t", "u"], {"t": "d"}, {"t": "d", "u": 7}] if kind == "line"
+               else [None, {"t": "d"}, {"t": "d", "f": 0}])
+    for config in configs:
+        for length in (2, 3):
+            for records in itertools.product(HISTORY_PAYLOADS, repeat=length):
+                if kind == "line" and config is None and length == 3:
+                    continue
+                case = {"kind": kind, "config": config, "records": list(records)}
+                problem = run_history(case)
+                acc.case(nontrivial_key=json.dumps(case, sort_keys=True),
+                         sample=case if acc.evaluations % 211 == 0 else None)
+                acc.outcome(problem is None)
+                if problem is not None:
+                    acc.violation("history:%s:state-leaks-between-records" % kind, problem,
+                                  {"kind": "history", "case": case})
     return acc
 
 
@@ -448,27 +522,30 @@ def shard_json(args):
 def shard(args):
     kind, rest = args[0], args[1:]
     return {"single": shard_single, "pair": shard_pair, "config": shard_config,
-            "json": shard_json}[kind](rest)
+            "json": shard_json, "history": shard_history}[kind](rest)
 
 
 # ---------------------------------------------------------------------------------------
 
 
 def run(ctx):
-    single_len = 3 if ctx.quick else 4
-    pair_len = 1 if ctx.quick else 2
-    shards = [("single", position, single_len) for position in POSITIONS]
+    single_len = 3 if ctx.quick else 5
+    pair_len = 1 if ctx.quick else 3
+    shards = [("single", position, single_len, first) for position in POSITIONS
+              for first in [""] + SIGMA]
     for pos_a, pos_b in itertools.combinations(POSITIONS, 2):
         for first in strings(pair_len):
             shards.append(("pair", pos_a, pos_b, first, pair_len))
     shards += [("config", config) for config in TAG_CONFIGS]
     shards += [("json", datefmt) for datefmt in DATEFMTS]
+    shards += [("history", "line"), ("history", "json")]
     ctx.pmap(shard, shards)
     ctx.meta.update(
         rule="every string of length <= %d over %r at each of %r, every pair of strings of "
              "length <= %d at every pair of positions (inexpressible inputs skipped and "
              "counted), tag configurations x overrides x field values x resolutions x "
-             "record times, JSON defaults x payload x datefmt; a case is non-trivial when "
+             "record times, JSON defaults x payload x datefmt, sequences of 2-3 records through one "
+             "formatter instance; a case is non-trivial when "
              "it contains a special character (line) / overlapping keys (JSON); distinct by "
              "the full case" % (single_len, "".join(SIGMA), list(POSITIONS), pair_len),
         exhaustive=True,
@@ -484,6 +561,8 @@ def run(ctx):
 
 
 def replay(data):
+    if data["kind"] == "history":
+        return run_history(data["case"])
     if data["kind"] == "json":
         return run_json_case(data["case"])
     return run_line_case(data["case"])
